@@ -22,9 +22,10 @@ import (
 )
 
 type yamlUnmarshaler struct {
-	resolver  Resolver
-	path      string
-	validator protoyaml.Validator
+	resolver       Resolver
+	path           string
+	validator      protoyaml.Validator
+	discardUnknown bool
 }
 
 func newYAMLUnmarshaler(resolver Resolver, options ...YAMLUnmarshalerOption) Unmarshaler {
@@ -42,9 +43,10 @@ func newYAMLUnmarshaler(resolver Resolver, options ...YAMLUnmarshalerOption) Unm
 
 func (m *yamlUnmarshaler) Unmarshal(data []byte, message proto.Message) error {
 	options := protoyaml.UnmarshalOptions{
-		Resolver:  m.resolver,
-		Validator: m.validator,
-		Path:      m.path,
+		Resolver:       m.resolver,
+		Validator:      m.validator,
+		Path:           m.path,
+		DiscardUnknown: m.discardUnknown,
 	}
 	if err := options.Unmarshal(data, message); err != nil {
 		return fmt.Errorf("yaml unmarshal: %w", err)
